@@ -201,6 +201,14 @@ def gen_cases(rng, tier: str) -> List[dict]:
             for mk in masks.get(tgt, []) if src == "String" else masks.get(src, []) if tgt == "String" else []:
                 C.append(case("cast", f"{src}->{tgt}:mask:{mk.strip(chr(34))}", f"DS_r <- DS_1[calc Me_2 := cast(Me_1, {kw}, {mk})];", st, dd))
 
+    # ---- the cast rejections added by the cast repairs: ordinary expected VTL errors (RunTimeError with a catalogued code)
+    for tag, val, tgt, code in [("String->Integer:3.5", "3.5", "integer", "2-1-5-1"), ("String->Duration:abc", "abc", "duration", "2-1-5-1"),
+                                ("String->Time_Period:2020X1", "2020X1", "time_period", "2-1-5-1"), ("String->Date:inf", "inf", "date", "2-1-19-8")]:
+        c = case("cast_rejection", tag, f"DS_r <- DS_1[calc Me_2 := cast(Me_1, {tgt})];", str1,
+                 {"DS_1": frame({"Id_1": ids(2), "Me_1": [val, val]})})
+        c["expect"] = ("Runtime", code)
+        C.append(c)
+
     # ---- time: time_agg to a finer indicator, comparisons of different indicators, min/max, period output formats
     tp1 = S(ds("DS_1", ("Me_1", "Time_Period")))
     tpid = S(("DS_1", [("Id_1", "Time_Period", "Identifier", False), ("Me_1", "Number", "Measure", True)]))
@@ -791,6 +799,12 @@ def run(ctx):
             ctx.oblige(f"K: stage {st} exercised by a real DuckDB failure", stages_seen.get(st, 0) > 0, "no generated case failed there")
     added = record_messages([{"stage": r["stage"], "cls": r.get("db_cls"), "msg": r["db_msg"]} for r in withdb])
     ctx.cov["new_raw_messages_recorded"] = added
+    # 3b'. cases with a stated expected VTL error (the cast rejections)
+    for r in results:
+        exp = (r.get("case") or {}).get("expect")
+        if exp:
+            ctx.oblige(f"K: {r['family']} [{r['shape']}] raises the expected VTL error {exp}", tuple(r["run"]) == tuple(exp),
+                       f"observed {r['run']} {r.get('msg', '')[:160]}")
     # 3c. the property predicate itself
     nv = 0
     for r in results:
